@@ -127,6 +127,36 @@ FIRST = {
     "C18_10": ("AE", "C09.owns-signature (the algebra keeps its own copy of the signature)"),
     "C19_10": ("AE", "necessary condition decided when the loop is not evaluable: outertan takes a quotient or inverse at all"),
     "C19_11": ("-", "quadvector representative in C19.outertrig"),
+    # ---- round 5 (ids _12, _13, _14): multi-step / state / rare-input changes -----------------------------------
+    "C01_12": ("other", "C09.name-injective also serves C01, C03-C07 (by-name dispatch under a wrapper is the path of every operator)"),
+    "C02_13": ("-", "C17.monomial-cancel: a result whose term list holds a non-factor (None) is malformed, not an analyser gap; also serves C02-C07"),
+    "C03_12": ("-", "`is` / `is not` between numbers is a violation wherever an engine meets it (bit-serial automaton, interpreter): the outcome is not a function of the values"),
+    "C03_13": ("other", "C08.symbolic-operand-order also serves C03-C07"),
+    "C04_12": ("other", "as C01_12"),
+    "C04_14": ("-", "C09.value-memo recognises hand-rolled memos in the instance dictionary (setdefault / update / vars(self), also through a local alias)"),
+    "C05_13": ("-", "C05.counts-follow-signature: p, q, r, d are the counts of the given signature, also when stale counts arrive with it (dataclasses.replace)"),
+    "C05_14": ("AE", "the scalar coefficient of an expression in the pseudoscalar alone (I*I, I*~I, normsq(I)) is a number in tree mode"),
+    "C06_12": ("other", "as C01_12"),
+    "C06_13": ("AE", "C06.semantic: sw / proj / normsq interpreted on representative operands whose elementary operators answer with the specification (kverif/specmv.py)"),
+    "C06_14": ("other", "C09.value-memo also serves C06, C04"),
+    "C07_14": ("AE", "C07.div-order follows a branch on the truth value of the left operand both ways (non-empty / empty multivector)"),
+    "C09_12": ("-", "C17.operands-intact: Polynomial / RationalPolynomial arithmetic never writes into the term lists of its operands"),
+    "C10_12": ("-", "C10.value-blind-operands: forwarding methods are classified with a multivector operand AND plain numbers 5, 0, 0.0, -1, 1"),
+    "C10_14": ("other", "C05.dual-table also serves C10 (auto mode decides by r, not by trial generation)"),
+    "C11_12": ("other", "C08.emitted-source also serves C11"),
+    "C11_14": ("other", "C08.codegen-pipeline also serves C11"),
+    "C13_12": ("-", "single-blade operand cells in C08.emitted-source (`a = A` binds the whole sequence, it unpacks nothing)"),
+    "C13_14": ("-", "four-dimensional cells in C13.graded-blades (canonical order of a grade is not ascending)"),
+    "C14_12": ("-", "C14.matrix-basis configuration 'only an orientation differs'"),
+    "C14_13": ("other", "C11.coefficient-kind also serves C14"),
+    "C15_13": ("-", "C15.kw-rekey: two non-canonical spellings of one blade, either order"),
+    "C16_12": ("-", "C16.index-uniform: a list is one (fancy) index, for __getitem__ and __setitem__"),
+    "C16_13": ("other", "C17.rational-identities also serves C16"),
+    "C16_14": ("-", "C11.emission-pairing with numbers that need more than six digits; literals compared by value and type; also serves C16"),
+    "C19_12": ("-", "C19.str-embeds: the text of a RationalPolynomial still denotes it under **, /, unary minus and as a factor"),
+    "C19_13": ("other", "C07.closed-forms also serves C19 (negative powers)"),
+    "C19_14": ("other", "C07.shirokov-recursion also serves C19; written before fix F15, adapted to HEAD"),
+    "C02_14": ("caught", "first evaluated after the round-5 strengthening (the sub-agent finished late)"),
 }
 
 rows = []
